@@ -98,17 +98,16 @@ def pegSep (run : PRun) (fuel : Nat) (e s : Expr) (o : SepOpts) (p : Nat) : Opti
   | some (st, stop, saw) =>
     if sepAccepts o st saw then some (.ok (.list st.reverse) stop) else some .fail
 
-/-- one pass over the alternatives of `Skip` (= `(x₁ | … | xₙ)*`, value discarded):
-    `some (some p')` = an alternative matched and consumed up to `p'`; `some none` = every
-    alternative failed; `none` = an alternative matched without consuming (ill-formed
-    repetition, meaning undefined) -/
+/-- one pass over the alternatives of `Skip` (value discarded): `some (some p')` = the first
+    alternative that matches *and consumes* ends at `p'`; `some none` = no alternative consumes
+    anything here (a match that consumes nothing is no progress) -/
 def pegSkipAlts (run : PRun) (p : Nat) : List Expr → Option (Option Nat)
   | [] => some none
   | x :: xs =>
     match run x p with
     | none => none
     | some .fail => pegSkipAlts run p xs
-    | some (.ok _ p') => if p' != p then some (some p') else none
+    | some (.ok _ p') => if p' != p then some (some p') else pegSkipAlts run p xs
 
 def pegSkipLoop (run : PRun) (xs : List Expr) : Nat → Nat → Option Res
   | 0, _ => none
